@@ -13,7 +13,7 @@ use scratchstack_aws_signature::{SignatureOptions, NO_ADDITIONAL_SIGNED_HEADERS}
 use serde::{Deserialize, Serialize};
 use serde_json::json;
 
-pub const RULE: &str = "enumerated completely: every two-digit value 00-99 of month, day (for every month of a leap and a non-leap year), hour, minute, second, zone hour and zone minute with the other fields fixed; all 2^5 separator combinations x 3 fraction marks; fraction lengths 0-12; years 0001, 0999, 1000, 9999; generated: random strings over the date-time alphabet, single-character insertions/deletions/substitutions of valid timestamps, renderings of random instants, surrounding spaces on the header carrier; each string on both carriers. Also: junk appended/prepended to a valid timestamp (comma-space-x, space-GMT, semicolon-x, a second timestamp after comma-space), and pairs of same-length strings one digit apart (fractions up to 50 digits) parsed directly after one another. Oracle = independent recursive-descent ISO-8601 parser with calendar arithmetic: MustAccept => the crate produces an authenticator whose instant equals the reference instant (offset applied, fraction truncated to ns), line 2 of its string-to-sign is that instant as YYYYMMDD'T'hhmmss'Z' in UTC, and end to end a request signed for that instant is accepted with the server clock exactly 900 s later and refused 1 ns further (pins the instant through the stable API); MustReject (out-of-range field, impossible date, missing zone, extra characters) => IncompleteSignature/400; Unspecified (zone > 14h, mixed separators, reduced precision, lower-case designators) => if accepted the instant must still be the reference one. Non-trivial: well-formed except for at most one field, or non-Z zone, or fraction, or extended form; distinct by (string, carrier).";
+pub const RULE: &str = "enumerated completely: every two-digit value 00-99 of month, day (for every month of a leap and a non-leap year), hour, minute, second, zone hour and zone minute with the other fields fixed; all 2^5 separator combinations x 3 fraction marks; fraction lengths 0-12; years 0001, 0999, 1000, 9999; generated: random strings over the date-time alphabet, single-character insertions/deletions/substitutions of valid timestamps, renderings of random instants, surrounding spaces on the header carrier, a well-formed Date header next to the X-Amz-Date under test; each string on both carriers. Also: junk appended/prepended to a valid timestamp (comma-space-x, space-GMT, semicolon-x, a second timestamp after comma-space), and pairs of same-length strings one digit apart (fractions up to 50 digits) parsed directly after one another. Oracle = independent recursive-descent ISO-8601 parser with calendar arithmetic: MustAccept => the crate produces an authenticator whose instant equals the reference instant (offset applied, fraction truncated to ns), line 2 of its string-to-sign is that instant as YYYYMMDD'T'hhmmss'Z' in UTC, and end to end a request signed for that instant is accepted with the server clock exactly 900 s later and refused 1 ns further (pins the instant through the stable API); MustReject (out-of-range field, impossible date, missing zone, extra characters) => IncompleteSignature/400; Unspecified (zone > 14h, mixed separators, reduced precision, lower-case designators) => if accepted the instant must still be the reference one. Non-trivial: well-formed except for at most one field, or non-Z zone, or fraction, or extended form; distinct by (string, carrier).";
 
 #[derive(Clone, Debug, Serialize, Deserialize, PartialEq, Eq)]
 pub struct TsCase {
@@ -51,6 +51,8 @@ pub fn subs() -> Vec<Box<dyn AnySub>> {
 
 fn both(text: String, out: &mut Vec<TsCase>) {
     out.push(TsCase { text: text.clone(), query_carrier: false, pad: 0 });
+    // the same X-Amz-Date value next to a well-formed Date header (after it / before it)
+    out.push(TsCase { text: text.clone(), query_carrier: false, pad: if text.len() % 2 == 0 { 16 } else { 48 } });
     out.push(TsCase { text, query_carrier: true, pad: 0 });
 }
 
@@ -133,7 +135,7 @@ fn valid_ts() -> BoxedStrategy<String> {
 }
 
 pub fn mutated() -> BoxedStrategy<TsCase> {
-    (valid_ts(), 0u8..4, any::<u16>(), any::<u16>(), any::<bool>(), prop_oneof![3 => Just(0u8), 1 => 0u8..16])
+    (valid_ts(), 0u8..4, any::<u16>(), any::<u16>(), any::<bool>(), prop_oneof![3 => Just(0u8), 1 => 0u8..16, 2 => 0u8..64])
         .prop_map(|(t, kind, pos, c, q, pad)| {
             const ALPHA: &[u8] = b"0123456789TZtz:+-., 9";
             // what an intermediary or a sloppy client may put around a timestamp
@@ -238,7 +240,7 @@ fn build_request(tc: &TsCase, credential_date: &str) -> WireRequest {
         for _ in 0..((tc.pad >> 2) & 3) {
             v.push(b' ');
         }
-        WireRequest {
+        let mut req = WireRequest {
             method: "GET".into(),
             uri: "/".into(),
             version: 11,
@@ -248,7 +250,13 @@ fn build_request(tc: &TsCase, credential_date: &str) -> WireRequest {
                 ("Authorization".into(), B::from(format!("AWS4-HMAC-SHA256 Credential={}, SignedHeaders=host;x-amz-date, Signature={}", cred, "0".repeat(64)))),
             ],
             body: B::default(),
+        };
+        // bit 4: a well-formed Date header rides along (bit 5: in front of X-Amz-Date); X-Amz-Date still decides
+        if tc.pad & 16 != 0 {
+            let at = if tc.pad & 32 != 0 { 1 } else { 2 };
+            req.headers.insert(at, ("Date".into(), B::from(["20150830T123600Z", "2015-08-30T12:36:00+00:00", "20150830T123601Z"][tc.text.len() % 3])));
         }
+        req
     }
 }
 
@@ -345,7 +353,8 @@ pub fn check_ts(tc: &TsCase, cc: &mut CaseCtx) -> CheckResult {
     };
     cc.class(label);
     cc.class_if(tc.query_carrier, "query-carrier");
-    cc.class_if(tc.pad != 0 && !tc.query_carrier, "padded-header");
+    cc.class_if(tc.pad & 15 != 0 && !tc.query_carrier, "padded-header");
+    cc.class_if(tc.pad & 16 != 0 && !tc.query_carrier, "well-formed-date-header-alongside");
     if label != "unspecified" {
         let t = &tc.text;
         if t.contains('+') || t.contains('-') || t.contains('.') || t.contains(',') || t.contains(':') || label == "rejected" {
